@@ -78,7 +78,12 @@ func ZZ_C04_roles() {
 		if nondet.Bool(l + ".old") {
 			rsName, hash = zzOldRS, zzHashOld
 		}
-		p := zzPod(l, nodeName, rsName, hash, 0, corev1.PodRunning, true, nondet.Base().Add(-60*1e9))
+		// bound by spec.nodeName, or created in node-affinity mode and not yet bound by the scheduler
+		binding, phase := 0, corev1.PodRunning
+		if nondet.Bool(l + ".boundByAffinityOnly") {
+			binding, phase = 1, corev1.PodPending
+		}
+		p := zzPod(l, nodeName, rsName, hash, binding, phase, binding == 0, nondet.Base().Add(-60*1e9))
 		if nondet.Bool(l + ".canaryLabel") {
 			p.Labels[datadoghqv1alpha1.ExtendedDaemonSetReplicaSetCanaryLabelKey] = datadoghqv1alpha1.ExtendedDaemonSetReplicaSetCanaryLabelValue
 		}
@@ -95,7 +100,7 @@ func ZZ_C04_roles() {
 		role = "canary"
 	}
 
-	_, err := zzReconcile(zzReconciler(c, false), zzNS, zzRSName)
+	_, err := zzReconcile(zzReconciler(c, nondet.Bool("nodeAffinityMode")), zzNS, zzRSName)
 	nondet.Observe("error", err != nil)
 
 	podByName := func(name string) *corev1.Pod {
